@@ -2,19 +2,13 @@ package influxql
 
 // C20 — result column names are complete, stable and unambiguous.
 
-// c20Name returns a symbolic name of 1..2 characters over {a, b, _, 1}, so that
-// names can collide with each other and with generated suffix forms such as a_1.
-func c20Char() byte {
-	return vfIteByte(vfBool(), 'a', vfIteByte(vfBool(), 'b', vfIteByte(vfBool(), '_', '1')))
-}
-
-func c20Name() string {
-	n := 1 + vfChoice(3)
-	b := make([]byte, n)
-	for i := range b {
-		b[i] = c20Char()
-	}
-	return string(b)
+// c20Name returns a name whose first character is a solver variable (a or b)
+// followed by one of the suffixes "", "_1", "_2", "_1_1": names can collide with each
+// other, with aliases and with the generated suffix forms.
+func c20Name(g *vfGen) string {
+	c := vfIteByte(vfBool(), 'a', 'b')
+	suffix := []string{"", "_1", "_2", "_1_1"}[g.pick(4)]
+	return string([]byte{c}) + suffix
 }
 
 func vfH_C20_columns(tier int) {
@@ -22,12 +16,15 @@ func vfH_C20_columns(tier int) {
 	if tier > 0 {
 		maxF = 4
 	}
+	g := &vfGen{tier: tier, budget: 2 + tier}
 	s := &SelectStatement{}
-	s.OmitTime = vfChoice(2) == 1
-	if vfChoice(2) == 1 {
-		s.TimeAlias = c20Name()
+	// statement-level options: one combination per path out of four
+	opt := vfChoice(4)
+	s.OmitTime = opt == 1
+	if opt == 2 {
+		s.TimeAlias = c20Name(g)
 	}
-	withTarget := vfChoice(2) == 1
+	withTarget := opt == 3
 	if withTarget {
 		s.Target = &Target{Measurement: &Measurement{Name: "t", IsTarget: true}}
 	}
@@ -38,36 +35,36 @@ func vfH_C20_columns(tier int) {
 	pos := 0
 	for i := 0; i < nf; i++ {
 		f := &Field{}
-		switch vfChoice(6) {
+		switch g.pick(6) {
 		case 0:
-			f.Expr = &VarRef{Val: c20Name()}
+			f.Expr = &VarRef{Val: c20Name(g)}
 		case 1:
-			f.Expr = &Call{Name: c20Name(), Args: []Expr{&VarRef{Val: "x"}}}
+			f.Expr = &Call{Name: c20Name(g), Args: []Expr{&VarRef{Val: "x"}}}
 		case 2:
-			f.Expr = &BinaryExpr{Op: ADD, LHS: &VarRef{Val: c20Name()}, RHS: &VarRef{Val: c20Name()}}
+			f.Expr = &BinaryExpr{Op: ADD, LHS: &VarRef{Val: c20Name(g)}, RHS: &VarRef{Val: c20Name(g)}}
 		case 3:
-			f.Expr = &ParenExpr{Expr: &VarRef{Val: c20Name()}}
+			f.Expr = &ParenExpr{Expr: &VarRef{Val: c20Name(g)}}
 		case 4: // top/bottom with tag arguments
 			name := "top"
-			if vfChoice(2) == 1 {
+			if g.pick(2) == 1 {
 				name = "bottom"
 			}
 			args := []Expr{&VarRef{Val: "v"}}
-			nt := vfChoice(3)
+			nt := 1 + g.pick(2)
 			for k := 0; k < nt; k++ {
-				args = append(args, &VarRef{Val: c20Name()})
+				args = append(args, &VarRef{Val: c20Name(g)})
 			}
 			args = append(args, &IntegerLiteral{Val: 3})
 			f.Expr = &Call{Name: name, Args: args}
 			if !withTarget {
 				extra += nt
 			}
-			if vfChoice(2) == 1 {
-				f.Alias = c20Name()
+			if g.pick(2) == 1 {
+				f.Alias = c20Name(g)
 			}
 		default:
-			f.Expr = &VarRef{Val: c20Name()}
-			f.Alias = c20Name()
+			f.Expr = &VarRef{Val: c20Name(g)}
+			f.Alias = c20Name(g)
 		}
 		if f.Alias != "" {
 			aliases = append(aliases, f.Alias)
